@@ -109,7 +109,7 @@ def norm(e):
     return e
 
 
-OPERAND = re.compile(r"^(?:[A-Za-z_]\w*|[A-Za-z_]\w*\[\d\]|[A-Za-z_]\w*\[\d\]\[\d\]|[A-Za-z_]\w*->(?:denom|p|num|den|coord\[\d\]))$")
+OPERAND = re.compile(r"^(?:[A-Za-z_]\w*|[A-Za-z_]\w*\[\d\]|[A-Za-z_]\w*\[\d\]\[\d\]|[A-Za-z_]\w*->(?:denom|p|num|den|coord\[\d\]|basis\[\d\]\[\d\]))$")
 
 # signatures of the translated functions (for calls): (kind, direction) per C parameter, in order
 ELEM = lambda x: ["%s->denom" % x] + ["%s->coord[%d]" % (x, i) for i in range(4)]
@@ -257,6 +257,8 @@ def translate(src, name, inputs, outputs, out_arg, check_alias=True, done=(), al
             wr(args[0], lit if not lit.startswith("-") else "(%s)" % lit); continue
         if f == "ibz_copy":
             wr(args[0], rd(args[1])); continue
+        if f == "ibz_abs":
+            wr(args[0], "((Int.natAbs %s : Nat) : Int)" % rd(args[1])); continue
         if f == "ibz_neg":
             wr(args[0], "-%s" % rd(args[1])); continue
         if f in ("ibz_add", "ibz_sub", "ibz_mul"):
@@ -357,6 +359,12 @@ def generate(repo, outdir):
         out += ["/-- `%s`: %s -/" % (name, ", ".join(outputs)),
                 "def %s (%s : Int) : %s :=" % (name, params, ty)] + lets + ["  (%s)" % ", ".join(res), ""]
         done.append(name)
+    # lattice.c: quat_lattice_index (only the denominators and the diagonal entries may be read)
+    lsrc = strip_c_comments(open(os.path.join(repo, "src/quaternion/ref/generic/lattice.c")).read())
+    lat = lambda x, v: {"%s->denom" % x: "%sd" % v, **{"%s->basis[%d][%d]" % (x, i, i): "%s%d" % (v, i) for i in range(4)}}
+    lets, res = translate(lsrc, "quat_lattice_index", {**lat("sublat", "s"), **lat("overlat", "o")}, ["index"], "index")
+    out += ["/-- `quat_lattice_index` (lattice.c): sd, s0..s3 = denominator and diagonal of sublat, od, o0..o3 of overlat -/",
+            "def quat_lattice_index (sd s0 s1 s2 s3 od o0 o1 o2 o3 : Int) : Int :="] + lets + ["  %s" % res[0], ""]
     lets, r = translate_pred(src, "quat_alg_coord_is_zero", coord("x"))
     out += ["/-- `quat_alg_coord_is_zero` (C int 0/1 as Bool) -/",
             "def quat_alg_coord_is_zero (x0 x1 x2 x3 : Int) : Bool :="] + lets + ["  " + r, ""]
